@@ -580,10 +580,9 @@ def precession_equatorial(
         start_ra.rad() + zeta.rad()
     ) + cos(theta.rad()) * sin(start_dec.rad())
     final_ra = atan2(a, b) + z.rad()
-    if start_dec > 85.0:  # Coordinates are close to the pole
-        final_dec = acos(sqrt(a * a + b * b))
-    else:
-        final_dec = asin(c)
+    # The arctangent is accurate for every declination, also when the *final*
+    # position is next to a pole (either one), where asin(c) loses digits
+    final_dec = atan2(c, sqrt(a * a + b * b))
     # Convert results to Angles. Please note results are in radians
     final_ra = Angle(final_ra, radians=True)
     final_dec = Angle(final_dec, radians=True)
@@ -679,7 +678,8 @@ def precession_ecliptical(
         start_lat.rad()
     ) * sin(pie.rad() - start_lon.rad())
     final_lon = p.rad() + pie.rad() - atan2(a, b)
-    final_lat = asin(c)
+    # The arctangent keeps its accuracy next to the poles of the ecliptic
+    final_lat = atan2(c, sqrt(a * a + b * b))
     # Convert results to Angles. Please note results are in radians
     final_lon = Angle(final_lon, radians=True)
     final_lat = Angle(final_lat, radians=True)
@@ -815,10 +815,9 @@ def precession_newcomb(
         start_ra.rad() + zeta.rad()
     ) + cos(theta.rad()) * sin(start_dec.rad())
     final_ra = atan2(a, b) + z.rad()
-    if start_dec > 85.0:  # Coordinates are close to the pole
-        final_dec = acos(sqrt(a * a + b * b))
-    else:
-        final_dec = asin(c)
+    # The arctangent is accurate for every declination, also when the *final*
+    # position is next to a pole (either one), where asin(c) loses digits
+    final_dec = atan2(c, sqrt(a * a + b * b))
     # Convert results to Angles. Please note results are in radians
     final_ra = Angle(final_ra, radians=True)
     final_dec = Angle(final_dec, radians=True)
